@@ -15,6 +15,7 @@ import ThaiLintModel.C09.Drv
 import ThaiLintModel.C10.Drv
 import ThaiLintModel.C14.Drv
 import ThaiLintModel.C15.Drv
+import ThaiLintModel.C16.Drv
 open Lean
 
 def dispatch (j : Json) : Json :=
@@ -30,6 +31,7 @@ def dispatch (j : Json) : Json :=
   | "C10" => ThaiLintModel.C10.handle j
   | "C14" => ThaiLintModel.C14.handle j
   | "C15" => ThaiLintModel.C15.handle j
+  | "C16" => ThaiLintModel.C16.handle j
   | p => Json.mkObj [("error", s!"unknown prop {p}")]
 
 partial def loop (h : IO.FS.Stream) (out : IO.FS.Stream) : IO Unit := do
